@@ -314,10 +314,10 @@ func c19Judge(op c19Op, dv c19Deriv, cfg string, obs *c19CaseObs) (vs []c19Verdi
 		}
 		return
 	}
-	verb, tbl := c19VerbTable(obs.Session.SQL)
+	verb, tbl := c19rVerbTable(obs.Session.SQL) // leading white space and comments skipped
 	var cands []c19Stmt
 	for _, s := range real.Stmts {
-		v2, t2 := c19VerbTable(s.SQL)
+		v2, t2 := c19rVerbTable(s.SQL)
 		if verb != "" && v2 == verb && t2 == tbl {
 			cands = append(cands, s)
 		}
